@@ -21,6 +21,7 @@ import sys
 from contextlib import contextmanager
 
 from . import fsseam
+from .procspace import ProcSpace
 from .kernel import Decider, HarnessError, Sim, SimAbort, Violation, derive
 
 PROP = "C19"
@@ -304,6 +305,20 @@ def gen_spec(seed: int, config: str | None = None) -> dict:
     spec = {"property": PROP, "config": config, "nodes": nodes, "faults": faults, "clock": clock, "knobs": knobs}
     if inproc:
         spec["inproc"] = {"mean_gap": bug.choice([2, 5, 20, 100])}
+    # process creation by fork(): a node's process is a copy of another node's process taken after that one has done k
+    # of its operations - module-level state of the library (id counters, caches) and, optionally, the parent's queue
+    # object come along.  Drawn from a stream of its own so that everything else about the spec stays what it was.
+    frk = random.Random(derive(seed, "fork"))
+    if not inproc and len(nodes) >= 2 and frk.random() < 0.2:
+        for _ in range(frk.choice([1, 1, 2])):
+            ci = frk.randrange(1, len(nodes))
+            pi = frk.randrange(0, ci)
+            child, parent = nodes[ci], nodes[pi]
+            if "fork" in child:
+                continue
+            n_ops = len(parent["script"])
+            child["fork"] = {"from": parent["name"], "after": frk.choice([0, 1, 1, 2, 3, n_ops, frk.randint(0, n_ops)]),
+                             "inherit_q": child.get("mode") != "async" and parent.get("mode") != "async" and frk.random() < 0.4}
     return spec
 
 
@@ -644,6 +659,9 @@ class NodeRunner:
         self.paused = None
         self.send_index = 0
         self.sent_ids = []
+        self.ops_done = 0
+        self.script_over = False
+        self.fork_snap = None
 
     # queue object / incarnation
     def new_queue(self):
@@ -922,13 +940,61 @@ class NodeRunner:
         finally:
             sys.settrace(None)
 
+    def fork_from_parent(self) -> bool:
+        """This node's process is made by fork() from another node's process (spec: node["fork"]): wait until the parent
+        has taken the snapshot (it does so between two of its operations, which is where a program calls fork()).
+        Returns True when the parent's queue object came along and is used instead of a new one."""
+        fk = self.node.get("fork")
+        space = getattr(self.env, "space", None)
+        if not fk or space is None or self.spec.get("inproc"):
+            return False
+        parent = self.env.runners.get(fk["from"])
+        if parent is None:
+            return False
+        guard = 0
+        while self.fork_snap is None and guard < 20_000:
+            self.sim.sleep_ns(200_000)
+            guard += 1
+        if self.fork_snap is None:
+            raise HarnessError("fork: the parent never reached the fork point")
+        q, deliveries, born = self.fork_snap
+        if fk.get("inherit_q") and q is not None:
+            # the queue object is duplicated with the process: the child carries on from where the parent had got to
+            self.q = q
+            self.inc = {"node": self.node["name"], "idx": len([i for i in self.hist.incarnations if i["node"] == self.node["name"]]),
+                        "deliveries": deliveries, "final": False, "born": born}
+            self.hist.incarnations.append(self.inc)
+            self.sim.log("incarnation", self.node["name"], self.inc["idx"], "inherited")
+            self.sim.probe("queue_object_inherited_through_fork")
+            return True
+        return False
+
+    def serve_forks(self, final=False):
+        """Parent side of fork(): called between two operations of this node's script."""
+        space = getattr(self.env, "space", None)
+        if space is None or self.spec.get("inproc"):
+            return
+        for c in self.env.runners.values():
+            fk = c.node.get("fork")
+            if fk and fk["from"] == self.node["name"] and c.fork_snap is None and (final or self.ops_done >= fk["after"]):
+                space.fork(self.node["name"], c.node["name"])
+                self.sim.probe("process_forked")
+                if self.sent_ids or (self.inc and self.inc["deliveries"]):
+                    self.sim.probe("process_forked_after_parent_handled_packets")
+                self.sim.log("fork", self.node["name"], c.node["name"], self.ops_done)
+                c.fork_snap = (copy.deepcopy(self.q) if self.q is not None else None,
+                               list(self.inc["deliveries"]) if self.inc else [], self.inc["born"] if self.inc else self.hist.tick())
+
     def _main(self):
         node = self.node
         role = node["role"]
         sim = self.sim
-        self.new_queue()
+        if not self.fork_from_parent():
+            self.new_queue()
         for op in copy.deepcopy(node["script"]):
+            self.serve_forks()
             sim.yield_point("op")
+            self.ops_done += 1
             kind = op["op"]
             if kind == "send":
                 self.do_send(op)
@@ -960,6 +1026,8 @@ class NodeRunner:
                 self.new_queue()
             else:
                 raise HarnessError(f"unknown op {kind}")
+        self.serve_forks(final=True)
+        self.script_over = True
         if role in ("writer", "both"):
             self.done_sending = True
         if role in ("reader", "both"):
@@ -1148,6 +1216,7 @@ def fresh_modules():
 
 
 _MODULE_CODE: dict = {}
+PROC_MODULES = ("tatsu.util.misc", "tatsu.packetz.compact", "tatsu.packetz.escape", "tatsu.packetz.packet", "tatsu.packetz.queue")
 
 
 def run(spec: dict, decider: Decider, keep_events: bool = False) -> RunResult:
@@ -1213,13 +1282,26 @@ def run(spec: dict, decider: Decider, keep_events: bool = False) -> RunResult:
     # ---- phase 1: the simulated queue
     try:
         with patched(env, clock):
+            # every simulated process has its own copy of the library's module-level state (sim/procspace.py)
+            space = env.space = ProcSpace(PROC_MODULES)
+            proc_of = {}
+            env.runners = {}
             for node in spec["nodes"]:
                 r = NodeRunner(sim, spec, node, hist, path, writers_done, env)
                 runners.append(r)
+                env.runners[node["name"]] = r
+                proc_of[node["name"]] = "P" if spec.get("inproc") else node["name"]
+                if proc_of[node["name"]] not in space.tables:
+                    space.spawn(proc_of[node["name"]])
                 sim.spawn(node["name"], r.main)
             if gremlin.todo:
                 sim.spawn("gremlin", gremlin.main)
-            sim.run_tasks()
+            sim.on_resume = lambda task: space.switch(proc_of.get(task.name))
+            try:
+                sim.run_tasks()
+            finally:
+                sim.on_resume = None
+                space.restore()
         if sim.abort_reason is not None:
             if isinstance(sim.abort_reason, Violation):
                 raise sim.abort_reason
@@ -1423,6 +1505,20 @@ def shrink_candidates(spec: dict):
             gone_serials = {op["serial"] for op in n["script"] if op["op"] == "send"}
             s["faults"] = [f for f in s["faults"] if f.get("node") != n["name"] and f.get("serial") not in gone_serials]
             yield s
+    # a forked process becomes an ordinary one; a fork happens at once; the queue object is not inherited
+    for i, n in enumerate(nodes):
+        if "fork" in n:
+            s = copy.deepcopy(spec)
+            del s["nodes"][i]["fork"]
+            yield s
+            if n["fork"].get("inherit_q"):
+                s = copy.deepcopy(spec)
+                s["nodes"][i]["fork"]["inherit_q"] = False
+                yield s
+            if n["fork"]["after"] > 0:
+                s = copy.deepcopy(spec)
+                s["nodes"][i]["fork"]["after"] -= 1
+                yield s
     # drop faults
     for i in range(len(spec["faults"])):
         s = copy.deepcopy(spec)
